@@ -37,6 +37,8 @@ owner has been collected returns at once (both `__call__`s). -/
 structure Env where
   deadH : Nat → Bool := fun _ => false
   deadT : Id → Bool := fun _ => false
+  /-- `a == b` for two distinct HasTraits instances (a class may define `__eq__`) -/
+  eqo : Id → Id → Bool := fun _ _ => false
 
 def Env.dead (E : Env) (k : HKey) : Bool := E.deadH k.handler || E.deadT k.target
 
@@ -129,16 +131,16 @@ def maintTrait (h : Heap) (mk : MKind) (g : Graph) (k : HKey) (o : Id) (old new 
   | _ => ⟨H, some .other⟩     -- an item maintainer is never attached to a trait
 
 /-- `ctrait_prevent_event` (_has_traits_helpers.py:111-138). -/
-def preventTrait (h : Heap) (n : Name) (old new : Val) : Bool :=
+def preventTrait (E : Env) (h : Heap) (o : Id) (n : Name) (old new : Val) : Bool :=
   old == .unset ||
-  (n != nTraitAdded && n != nTraitModified && valEq h old new)
+  (n != nTraitAdded && n != nTraitModified && fieldCmp h o n == .equality && valEq E.eqo h old new)
 
 /-- `call_notifiers`: the notifiers of the COPIED list, in order. -/
 def callTrait (E : Env) (h : Heap) (o : Id) (n : Name) (old new : Val) :
     List Notifier → Hooks → List Delivered → Hooks × List Delivered × Option Exc
   | [], H, ds => (H, ds, none)
   | .user k _ :: ns, H, ds =>
-    if E.dead k || preventTrait h n old new then callTrait E h o n old new ns H ds
+    if E.dead k || preventTrait E h o n old new then callTrait E h o n old new ns H ds
     else callTrait E h o n old new ns H (ds ++ [.trait k o n old new])
   | .maint mk g k :: ns, H, ds =>
     if E.dead k then callTrait E h o n old new ns H ds
@@ -256,7 +258,8 @@ def mutate (E : Env) (st : St) : Mutation → Out
          else
            -- old value: `__dict__` entry, else the default, which is stored silently first
            let mv := oldValue st.h f fresh
-           if mv.2 == v then ⟨⟨storeField mv.1 o n v, st.H⟩, [], none⟩
+           -- `changed`: always under ComparisonMode.none, else identity (ctraits.c:2390, 2520)
+           if f.cmp != .none && mv.2 == v then ⟨⟨storeField mv.1 o n v, st.H⟩, [], none⟩
            else fire E st.H (storeField mv.1 o n v) o n mv.2 v)
     | _ => skip st
   | .read o n fresh =>
@@ -279,7 +282,7 @@ def mutate (E : Env) (st : St) : Mutation → Out
          -- existing trait replaced, notifiers copied over, no event
          ⟨⟨st.h.upd o (.inst (fs.map (fun f => if f.name == n then { f with tagged := tagged, dflt := d } else f))), st.H⟩, [], none⟩
        | none =>
-         fire E st.H (st.h.upd o (.inst (fs ++ [⟨n, tagged, d, .unset⟩]))) o nTraitAdded .undef (.name n))
+         fire E st.H (st.h.upd o (.inst (fs ++ [⟨n, tagged, d, .unset, .equality⟩]))) o nTraitAdded .undef (.name n))
     | _ => skip st
   | .listAppend c x =>
     match st.h.get c with
